@@ -108,14 +108,21 @@ def main():
         res = A.run(jobs)
         judge(chk, stream, seed, n_args, opts, cases, res)
         chk.count("modules_generated:" + stream, len(cases))
+    # monomorphisation invariance: one generic function at two instantiation types in one program
+    # must agree, at each, with its hand-monomorphised copy (no interpreter involved)
+    import mono_templates
+
+    mcases = mono_templates.cases(chk.seed, quick, per_module=2)
+    mjobs = A.jobs_for_generated(mcases, lambda c: [["silent-all"], ["verbose-all"]][c["index"] % 2])
+    mono_templates.judge(chk, "C01", mcases, A.run(mjobs), A.STRUCTURAL)
     chk.assumptions = [
         "the definitional interpreter and the type->Data model of oracles/aiken_ref are the trusted base (written from the language definition, calibrated on 81 hand-written corner cases); running out of interpreter fuel is inconclusive",
         "grey zones excluded by construction: unused lets whose right-hand side can abort, order of two sibling aborts (only value-vs-abort is compared), trace text",
         "validators' script-context plumbing, opaque types and decorators are exercised by C12/C18/C19, not here",
     ]
     chk.finish(
-        rule="type-directed generated modules (3-12 definitions: Int/Bool/ByteArray/String, lists, tuples, pairs, Option, user ADTs incl. generic and recursive, records, lambdas, higher-order and recursive functions, when/if/let/expect, pipes, captures, backpassing, constants, Data casts, 45 builtins; one- and two-module layouts) x 8 (quick) / 32 (thorough) boundary-biased argument tuples per entry passed as run-time Data, under verbose / silent / compact tracing; distinct = (stream, module, entry, argument tuple); non-trivial = all",
-        floor={"evaluations": 10000, "modules_compiled": 1000, "agree_abort": 300},
+        rule="type-directed generated modules (3-12 definitions: Int/Bool/ByteArray/String, lists, tuples, pairs, Option, user ADTs incl. generic and recursive, records, lambdas, higher-order and recursive functions, when/if/let/expect, pipes, captures, backpassing, constants, Data casts, 45 builtins; one- and two-module layouts) x 8 (quick) / 32 (thorough) boundary-biased argument tuples per entry passed as run-time Data, under verbose / silent / compact tracing; plus monomorphisation templates (12 representation-sensitive generic bodies x ordered pairs of 14 instantiation types: generic instance vs hand-monomorphised copy); distinct = (stream, module, entry, argument tuple); non-trivial = all",
+        floor={"evaluations": 10000, "modules_compiled": 1000, "agree_abort": 300, "monomorphisation_cases": 1000},
     )
 
 
